@@ -87,6 +87,9 @@ func manifestStatuses(r *rand.Rand, s *Scn) {
 				if r.Intn(2) == 0 {
 					s.Sets[i].Phases[j].Objects[k].Status = pick(r, ManifestStatuses)
 				}
+				if r.Intn(4) == 0 { // ... and PKO's own revision annotation / cache label, stale
+					s.Sets[i].Phases[j].Objects[k].MAnn = pick(r, []string{"0", "1", "1", "2", "7"})
+				}
 			}
 		}
 	}
